@@ -23,6 +23,13 @@ import pickle
 
 import numpy as np
 
+RULE_SUFFIX = (
+    "Routes (drawn per case / per fit, each with a floor on its counter where the module lists one): the estimator is "
+    "configured by constructor | set_params | attribute assignment | clone; the numbers arrive in C | Fortran | strided | "
+    "read-only | list containers (integer-typed where whole-number data are drawn); fitted through fit or fit_transform "
+    "where both exist; used afterwards as the same object | its deep copy | its unpickled copy; the caller's buffers may be "
+    "overwritten after fit."
+)
 CONFIGURE = ("ctor", "ctor", "set_params", "setattr", "clone")
 CARRY = ("same", "same", "deepcopy", "pickle")
 PRESENT = ("C", "C", "F", "strided", "readonly", "list")
